@@ -3,7 +3,15 @@
    [distinguishable], [hypers_of], [shallow], [wf_t] : Model/HyperSpec.v;  [valid], [all_valid], [space_size] : Model/Geno.v (C11).
    User code of CustomHyper subclasses is [cdec]/[cenc]; what each theorem assumes of it is in its statement. *)
 From PG Require Import Common.Tactics Model.Geno Model.Hyper Model.HyperSpec Model.HyperRun
-  Proofs.HyperBasics Proofs.HyperDecode Proofs.HyperEncode Proofs.HyperIter Proofs.HyperInstance.
+  Proofs.HyperBasics Proofs.HyperDecode Proofs.HyperEncode Proofs.HyperIter Proofs.HyperConcrete Proofs.HyperInstance.
+
+(* the theorems below speak about [sdecode] on structured decisions; this is what the code computes on the concrete DNA
+   the library builds from the decision (DNA constructor normal form), including the re-rooting DNA(None, dna.children)
+   of the child DNA of a conditional choice and the slot assignment of ObjectTemplate._decode *)
+Theorem C13_concrete_agrees : forall cdec w t d, hwf t = true -> valid (dna_spec w t) d = true ->
+  cdecode cdec w t (normalize d) = sdecode cdec w t d.
+Proof. exact cdecode_normalize. Qed.
+Print Assumptions C13_concrete_agrees.
 
 (* decoding a DNA that is valid for the template's specification can only fail inside user code *)
 Theorem C13_decode_total : forall cdec w t d, shallow w -> custom_concrete cdec -> custom_total cdec ->
@@ -36,7 +44,7 @@ Proof. exact decode_shape. Qed.
 Print Assumptions C13_decode_shape.
 
 (* what encode accepts is (==) a value some valid DNA decodes to *)
-Theorem C13_encode_sound : forall cdec cenc w q, no_hquirks q ->
+Theorem C13_encode_sound : forall cdec cenc w q,
   (forall ck v e, cenc ck v = Err e -> catchable e = true) ->
   (forall ck v s, cenc ck v = Ok s -> exists v', cdec ck s = Ok v' /\ veq v' v = true) ->
   forall t v ds, wf_t t -> enc cenc w q t v = Ok ds ->
@@ -54,6 +62,27 @@ Theorem C13_encode_decode : forall cdec cenc w q, no_hquirks q ->
   valid (dna_spec w t) d = true -> sdecode cdec w t d = Ok v -> sencode cenc w q t v = Ok d.
 Proof. exact encode_decode. Qed.
 Print Assumptions C13_encode_decode.
+
+(* with the open finding unrepaired ([q_list_dict q = true]): still true on templates without a list node ... *)
+Theorem C13_encode_decode_partial : forall cdec cenc w q,
+  (forall ck v e, cenc ck v = Err e -> catchable e = true) ->
+  (forall ck v s, cenc ck v = Ok s -> exists v', cdec ck s = Ok v' /\ veq v' v = true) ->
+  (forall ck s v, cdec ck s = Ok v -> cenc ck v = Ok s) ->
+  forall t d v, avoids q t -> wf_t t -> distinguishable cdec w t ->
+  valid (dna_spec w t) d = true -> sdecode cdec w t d = Ok v -> sencode cenc w q t v = Ok d.
+Proof. exact encode_decode_partial. Qed.
+Print Assumptions C13_encode_decode_partial.
+
+(* ... and false in general: oneof([[oneof([1, 2])], {}]) has distinguishable candidates, DNA(1) decodes to {}, and
+   encoding {} raises TypeError (with the flag off — the behaviour as repaired — it returns DNA(1)) *)
+Theorem C13_encode_decode_refuted :
+  wf_t rf_t /\ distinguishable std_cdec ex_w rf_t /\ valid (dna_spec ex_w rf_t) rf_d = true /\
+  sdecode std_cdec ex_w rf_t rf_d = Ok (TDict []) /\
+  sencode std_cenc ex_w q_on rf_t (TDict []) = Err E_TYPE /\
+  sencode std_cenc ex_w hq_none rf_t (TDict []) = Ok rf_d /\
+  ~ avoids q_on rf_t.
+Proof. exact encode_decode_refuted. Qed.
+Print Assumptions C13_encode_decode_refuted.
 
 (* two valid DNAs never decode to equal (==) values when the candidates are distinguishable *)
 Theorem C13_decode_injective : forall cdec w,
